@@ -122,6 +122,16 @@ fn run_variant(
 /// Form bodies with characters a decoder or a text layer may treat specially (as raw bytes).
 pub fn special_form_bodies() -> Vec<(&'static str, Vec<u8>)> {
     let mut v = special_form_bodies_0();
+    // multi-byte characters across the power-of-two offsets of the body (whatever reads the body in blocks meets a
+    // character cut by a block end): an ASCII run that ends 4 .. 0 bytes before / 1 byte after each of 1 KiB .. 48 KiB,
+    // followed by a 2-, a 3- and a 4-byte character
+    for boundary in [1024usize, 2048, 4096, 8192, 16_384, 32_768, 49_152] {
+        for shift in [-4i64, -3, -2, -1, 0, 1] {
+            let run = (boundary as i64 - 2 + shift) as usize;
+            let body = format!("a={}\u{e9}\u{20ac}\u{1f600}", "x".repeat(run));
+            v.push((Box::leak(format!("multi-byte characters across offset {} (shift {})", boundary, shift).into_boxed_str()), body.into_bytes()));
+        }
+    }
     // form fields with a meaning in HTML form submission: ordinary parameters of a UTF-8 body
     v.push(("_charset_ field naming windows-1252 in a UTF-8 body", "_charset_=windows-1252&name=caf\u{e9}".as_bytes().to_vec()));
     v.push(("_charset_ field naming utf-16 in a UTF-8 body", "name=\u{65e5}\u{672c}&_charset_=utf-16".as_bytes().to_vec()));
